@@ -568,7 +568,7 @@ func c19r8(rc *core.RC) {
 		n++
 		good := false
 		if len(r.Results) == 1 {
-			if c, isCall := core.Unparen(r.Results[0]).(*ast.CallExpr); isCall && core.CalleeName(info, c) == "context.WithValue" && len(c.Args) == 3 && core.ObjOf(info, c.Args[2]) == q {
+			if c, isCall := core.Unparen(core.ResolveSingleDef(info, fd.Body, r.Results[0])).(*ast.CallExpr); isCall && core.CalleeName(info, c) == "context.WithValue" && len(c.Args) == 3 && core.ObjOf(info, c.Args[2]) == q {
 				good = true
 			}
 		}
